@@ -122,7 +122,7 @@ func ghostTypesFor(fi *FuncInfo, lit *ast.FuncLit, info *types.Info) map[string]
 				res = s.Results()
 			}
 		}
-	} else {
+	} else if fi.Obj != nil {
 		res = fi.Obj.Type().(*types.Signature).Results()
 	}
 	if res != nil {
@@ -535,6 +535,23 @@ func VerifyFunc(w *World, prog *Program, fi *FuncInfo) *FuncResult {
 		loopGhostTypes: map[string]types.Type{}}
 	fv.loops, fv.lits = numberLoopsAndLits(fi.Decl)
 	fv.prepareLoopGhostTypes()
+	// local variables bound to function literals (x := func..., var x func...; x = func...)
+	ast.Inspect(fi.Decl.Body, func(n ast.Node) bool {
+		if as, ok := n.(*ast.AssignStmt); ok {
+			for i, l := range as.Lhs {
+				if i < len(as.Rhs) {
+					if lit, ok := ast.Unparen(as.Rhs[i]).(*ast.FuncLit); ok {
+						if id, ok := l.(*ast.Ident); ok {
+							if v, ok := fv.info.ObjectOf(id).(*types.Var); ok {
+								fv.closureLits[v] = lit
+							}
+						}
+					}
+				}
+			}
+		}
+		return true
+	})
 	res := &FuncResult{Fn: fi}
 	func() {
 		defer func() {
@@ -561,7 +578,7 @@ func VerifyFunc(w *World, prog *Program, fi *FuncInfo) *FuncResult {
 		}
 		sort.Slice(ls, func(i, j int) bool { return ls[i].ord < ls[j].ord })
 		for _, l := range ls {
-			if fi.Contr != nil && (fi.Contr.Has("ensures", l.ord) || fi.Contr.Has("yields", l.ord) || fi.Contr.Has("yields2", l.ord) || fi.Contr.Has("nopanic", l.ord) || fi.Contr.Has("noglobals", l.ord)) {
+			if fi.Contr != nil && (fi.Contr.Has("ensures", l.ord) || fi.Contr.Has("yields", l.ord) || fi.Contr.Has("yields2", l.ord) || fi.Contr.Has("nopanic", l.ord) || fi.Contr.Has("noglobals", l.ord) || fi.Contr.Has("noglobalstate", l.ord)) {
 				fv.verifyUnit(l.lit)
 			}
 		}
@@ -640,13 +657,18 @@ func (fv *FuncVerifier) verifyUnit(lit *ast.FuncLit) {
 	fv.curLit = 0
 	fv.yieldVar = nil
 	fv.globalWrites = nil
+	fv.globalReads = map[string]bool{}
 	fv.nondet = nil
 	var ftype *ast.FuncType
 	var body *ast.BlockStmt
 	var sig *types.Signature
 	if lit == nil {
 		ftype, body = fi.Decl.Type, fi.Decl.Body
-		sig = fi.Obj.Type().(*types.Signature)
+		if fi.Obj != nil {
+			sig = fi.Obj.Type().(*types.Signature)
+		} else {
+			sig = types.NewSignatureType(nil, nil, nil, nil, nil, false)
+		}
 	} else {
 		fv.curLit = fv.lits[lit]
 		ftype, body = lit.Type, lit.Body
@@ -885,6 +907,22 @@ func (fv *FuncVerifier) verifyUnit(lit *ast.FuncLit) {
 		default:
 			fv.note("abstracted: break/continue outside loop in %s", fi.Key)
 		}
+	}
+	if fi.Contr.Has("noglobalstate", fv.curLit) {
+		status := "unsat"
+		desc := "this body neither writes nor reads a package-level variable of /repo (function values aside): its result cannot depend on shared mutable state"
+		var bad []string
+		bad = append(bad, fv.globalWrites...)
+		for r := range fv.globalReads {
+			bad = append(bad, "reads "+r)
+		}
+		sort.Strings(bad)
+		if len(bad) > 0 {
+			status = "failed"
+			desc = "body uses package-level state: " + strings.Join(bad, "; ")
+		}
+		fv.obls = append(fv.obls, &Obligation{Func: fi.Key, Class: "R", Kind: "noglobalstate", Site: pos, Pos: fv.pos(pos), Goal: True,
+			Desc: desc, consts: fv.consts, Name: fmt.Sprintf("%s#R.noglobalstate[lit%d]", fi.Key, fv.curLit), Status: status, Solver: "govc-analysis"})
 	}
 	if fi.Contr.Has("noglobals", fv.curLit) {
 		status := "unsat"
